@@ -121,8 +121,9 @@ type endState struct {
 	readErr error
 	jsonBad string
 	abandoned int
-	exact     int
-	pings     int
+	exact      int
+	pings      int
+	pongFailed int
 }
 
 func payloadOf(o kernel.Op) []byte {
@@ -242,7 +243,9 @@ func run(p *kernel.Plan) (res *kernel.Result) {
 			// that can no longer be written (this side has already finished and
 			// closed its half of the transport) does not end the reading
 			c.SetPingHandler(func(m string) error {
-				c.WriteControl(websocket.PongMessage, []byte(m), time.Now().Add(time.Hour))
+				if err := c.WriteControl(websocket.PongMessage, []byte(m), time.Now().Add(time.Hour)); err != nil {
+					st.pongFailed++
+				}
 				return nil
 			})
 			var mine []kernel.Op
@@ -544,7 +547,11 @@ func run(p *kernel.Plan) (res *kernel.Result) {
 		if perr != nil {
 			return res.Fail("C13/wire-frame-invalid", "%s: %v", names[e], perr)
 		}
-		if used != len(pipe.Wire)-hs {
+		if used != len(pipe.Wire)-hs && from.pongFailed > 0 {
+			// this side closed its half of the transport while its reader was
+			// writing a pong: the torn pong at the very end is the harness's doing
+			res.Stat("pongs_torn_by_the_half_close", 1)
+		} else if used != len(pipe.Wire)-hs {
 			return res.Fail("C13/wire-trailing-bytes", "%s: %d bytes after the last whole frame", names[e], len(pipe.Wire)-hs-used)
 		}
 		msgs, ctrl, verr := ref.WSValidate(frames, e == 0, pr.Deflate)
